@@ -253,6 +253,7 @@ def run(ctx, lean_ok):
     profiles = build_profiles(ctx)
     nsim = ctx.n(32, 300)
     ncap = ctx.n(1, 4)             # runs sized to end at the 14-day cap
+    nstall = ctx.n(3, 20)          # small soluble bubbles that dissolve completely (stall / dissolved stop)
     ndropped = 0
     budget = ctx.n(4000, 30000)
     rows_cap = ctx.n(400, 1500)
@@ -260,7 +261,12 @@ def run(ctx, lean_ok):
     lines, expect = [], []          # driver requests and what to compare them with
     nder = 0
     for idx in range(nsim):
-        c = S.sbm_cap_case(r, profiles) if idx < ncap else S.sbm_case(r, profiles, rows_cap=rows_cap)
+        if idx < ncap:
+            c = S.sbm_cap_case(r, profiles)
+        elif idx < ncap + nstall:
+            c = S.sbm_stall_case(r, profiles)
+        else:
+            c = S.sbm_case(r, profiles, rows_cap=rows_cap)
         if c['descr']['kind'] == 'inert' and r.random() < 0.3:
             c['obj'].k_bio = r.uniform(1e-7, 1e-5)
             c['obj'].t_bio = r.choice([0., r.uniform(10., 5000.)])
